@@ -1,5 +1,5 @@
 """C16 — a context always shows the last locale set; sub-contexts are isolated.
-Theorems: lean/I18nVerif/Theorems/C16.lean, C16Ticks.lean (ticks are invisible).  Correspondence: harness ctx_h (`ops`: a
+Theorems: lean/I18nVerif/Theorems/C16.lean, C16Ticks.lean (ticks are invisible while no wire is due), C16Wired.lean.  Correspondence: harness ctx_h (`ops`: a
 tree of real `I18nContext`s, scoped views through `scope_i18n!` / `I18nContext::scope`, `t!` / `t_string!` / `tu_string!` /
 `t_display!` / `td_string!` closures re-invoked) vs the Lean cell machine `Context.run`; property oracle = the history
 specification `Context.Spec.observations`, compared with the implementation's observation after every step.
@@ -8,8 +8,16 @@ Every sequence runs on TWO builds of the harness: `plain` (leptos `ssr`: `Effect
 (`--features effects` = reactive_graph's `effects`, own target dir `harness/target-effects`: effects run natively on the
 harness' deterministic executor, as under `csr` / `hydrate` in the browser).  The step `tick` (= run the executor until idle;
 the only moment spawned effect futures are polled: requests are sent with `drain_each: false`) is placed densely after
-creations and sets and at random positions; model and specification treat it as the identity (`C16_ticks_invisible`).  A
-self-test (`effects_selftest`) makes sure effects really run in the effects build and really do not in the plain one."""
+creations and sets and at random positions; model and specification treat it as the identity as long as no wire is due
+(`C16_ticks_invisible`; with a written wire it is the moment of delivery, see below).  A
+self-test (`effects_selftest`) makes sure effects really run in the effects build and really do not in the plain one.
+
+Wired sub-contexts (Theorems/C16Wired.lean; the property's exception "unless the caller wired an initial-locale signal"):
+a third of the random sequences also create sub-contexts whose initial locale is a caller-owned signal (`sub_wired`) and
+write that signal (`wire_set`); they run on the effects build only (the forwarding `RenderEffect` is inert under plain
+`ssr`; the plain build must answer `bad_op`).  For those a tick is not the identity: it delivers a changed wire.  Every
+observation of a wired sub-context is judged by `WiredOracle`, a property oracle that does not use the Lean model (a
+disagreement is a VIOLATION), and compared with the model (a disagreement with the model only is a broken correspondence)."""
 from .common import *
 
 RULE = ("every sequence is run on BOTH builds of the harness (plain `ssr`: effects inert; `effects`: Effect/RenderEffect run natively on "
@@ -29,7 +37,15 @@ RULE = ("every sequence is run on BOTH builds of the harness (plain `ssr`: effec
         "contexts; a quarter of the sequences use tracked sets only and also derive `Memo`s from the contexts; plus hand-written sequences (deep sub-context chains, scope cycles root->sub->deep->root keys, closures "
         "created before many sets); after every step the implementation's observation is compared with the model's and the "
         "specification's, and at the end every view is read back; non-trivial = the sequence contains a set after which some "
-        "view or closure of the same context is observed; distinct = distinct sequences")
+        "view or closure of the same context is observed; distinct = distinct sequences; "
+        "WIRED (every third random sequence + hand-written ones, effects build only): additionally {sub_wired(parent view or none, locale) = "
+        "init_i18n_subcontext_with_options(Some(caller-owned RwSignal)), wire_set(wire, locale) = signal.set (2/3 followed by a tick)} and the "
+        "composite patterns wire_same (wire_set with the value the wire already has; tick; read), wire_race (wire_set(x) and 1..2 "
+        "set/set_untracked through any view of the same sub-context, in either order, in one turn; tick; read), wire_agree (optional earlier "
+        "set+tick; then set/set_untracked(y) and wire_set(y) in either order, with or without a tick between; tick; read: must show y), "
+        "wire_parent (set the parent of a wired sub-context; tick; read both) and ordinary sub-contexts created under wired ones; "
+        "observations of wired sub-contexts are judged by the model-independent WiredOracle: observed in {locale of the most recent set* on it "
+        "(else its creation value), value of its wire at the most recent tick (else at creation)} and equal to it when the two agree")
 
 KINDS = ["t", "t_string", "tu_string", "t_display", "td_string", "t_plural"]
 PREFIX = {0: "hello_", 1: "inner_", 2: "leaf_"}
@@ -40,14 +56,19 @@ MEMO_KINDS = ["locale", "t_string", "td_string", "t_display", "t_plural"]
 CAT0 = {"en": "other", "en-US": "other", "de": "other", "fr": "one", "fr-CA": "one"}
 
 
-def gen_sequence(rng, names, maxlen, tracked_only=False):
+def gen_sequence(rng, names, maxlen, tracked_only=False, wired=False):
     """tracked_only: no `set_locale_untracked` in the sequence; then closures of kind "memo" are created as well (they
     are compared like plain closures, which is only right without untracked sets).  The explicit memo operations
-    (`make_memo` / `read_memo`) are generated in every sequence: the model knows about laziness."""
+    (`make_memo` / `read_memo`) are generated in every sequence: the model knows about laziness.
+    wired: also wired sub-contexts (`sub_wired`), writes to their signals (`wire_set`) and the patterns around them."""
     n = rng.range(1, maxlen)
     steps = []
     nviews, nclosures, nmemos, nowners = 0, 0, 0, 0
     alias = []        # view -> representative view of the same context, as far as the generator knows
+    wire_view, wire_val = [], []      # wire -> the view its sub-context was created as / the value its signal holds
+
+    def any_set():
+        return "set" if tracked_only or rng.chance(3, 5) else "set_untracked"
 
     def new_view(rep=None):
         nonlocal nviews
@@ -69,8 +90,88 @@ def gen_sequence(rng, names, maxlen, tracked_only=False):
                                (0 if tracked_only or not nmemos else 8, "pattern_same_value"),
                                (3 if nowners else 0, "child_owner"), (7 if nowners else 0, "provider"),
                                (9 if nowners else 0, "use_ctx"), (4 if nowners else 0, "provide_again"),
-                               (7, "create_set_tick"), (7, "parent_set_tick")])
-        if op == "new_root":
+                               (7, "create_set_tick"), (7, "parent_set_tick"),
+                               (9 if wired else 0, "sub_wired"), (12 if wired and wire_view else 0, "wire_set"),
+                               (5 if wired and wire_view else 0, "wire_same"), (8 if wired and wire_view else 0, "wire_race"),
+                               (9 if wired and wire_view else 0, "wire_agree"), (4 if wired and wire_view else 0, "wire_parent")])
+        if wired and nviews and not wire_view and rng.chance(1, 3):
+            op = "sub_wired"
+        if op == "sub_wired":
+            x = rng.pick(names)
+            steps.append({"op": "sub_wired", "parent": rng.below(nviews) if nviews and rng.chance(7, 8) else None, "locale": x})
+            wire_view.append(nviews)
+            wire_val.append(x)
+            new_view()
+            if rng.chance(1, 3):
+                steps.append({"op": "scope", "view": nviews - 1})
+                new_view(nviews - 1)
+        elif op == "wire_set":
+            w = rng.below(len(wire_view))
+            x = rng.pick(names)
+            steps.append({"op": "wire_set", "wire": w, "locale": x})
+            wire_val[w] = x
+            if rng.chance(2, 3):
+                steps.append({"op": "tick"})
+                if rng.chance(1, 2):
+                    steps.append({"op": rng.pick(["get", "get_untracked"]), "view": same_ctx_view(wire_view[w])})
+        elif op == "wire_same":
+            # the caller writes the value the signal already holds: the listener memo does not change, nothing is delivered
+            # (a locale set on the sub-context in between stays)
+            w = rng.below(len(wire_view))
+            if rng.chance(1, 2):
+                steps.append({"op": any_set(), "view": same_ctx_view(wire_view[w]), "locale": rng.pick(names)})
+            if rng.chance(1, 3):
+                steps.append({"op": "tick"})
+            steps.append({"op": "wire_set", "wire": w, "locale": wire_val[w]})
+            steps.append({"op": "tick"})
+            steps.append({"op": rng.pick(["get", "get_untracked"]), "view": same_ctx_view(wire_view[w])})
+        elif op == "wire_race":
+            # the signal is written and the sub-context is set in the same turn, in either order: the delivery (next tick) wins
+            w = rng.below(len(wire_view))
+            x = rng.pick(names)
+            sets = [{"op": any_set(), "view": same_ctx_view(wire_view[w]), "locale": rng.pick(names)} for _ in range(rng.range(1, 2))]
+            k = rng.below(len(sets) + 1)
+            steps.extend(sets[:k])
+            steps.append({"op": "wire_set", "wire": w, "locale": x})
+            wire_val[w] = x
+            steps.extend(sets[k:])
+            if rng.chance(1, 3):
+                steps.append({"op": "get", "view": same_ctx_view(wire_view[w])})
+            steps.append({"op": "tick"})
+            steps.append({"op": rng.pick(["get", "get_untracked"]), "view": same_ctx_view(wire_view[w])})
+            if nclosures and rng.chance(1, 3):
+                steps.append({"op": "call_closure", "closure": rng.below(nclosures)})
+        elif op == "wire_agree":
+            # the last set on the sub-context and the wire agree on y (in either order, in one turn or two): it must show y
+            w = rng.below(len(wire_view))
+            if rng.chance(2, 3):
+                steps.append({"op": "set", "view": same_ctx_view(wire_view[w]), "locale": rng.pick(names)})
+                steps.append({"op": "tick"})
+            y = rng.pick(names)
+            a = {"op": any_set(), "view": same_ctx_view(wire_view[w]), "locale": y}
+            b = {"op": "wire_set", "wire": w, "locale": y}
+            wire_val[w] = y
+            first, second = (a, b) if rng.chance(1, 2) else (b, a)
+            steps.append(first)
+            if rng.chance(1, 3):
+                steps.append({"op": "tick"})
+            steps.append(second)
+            steps.append({"op": "tick"})
+            steps.append({"op": rng.pick(["get", "get_untracked"]), "view": same_ctx_view(wire_view[w])})
+        elif op == "wire_parent":
+            # neither the parent nor an ordinary sub-context below follows a wired sub-context, nor the other way round
+            w = rng.below(len(wire_view))
+            steps.append({"op": "sub", "parent": same_ctx_view(wire_view[w]), "initial": None})
+            child = nviews
+            new_view()
+            steps.append({"op": "wire_set", "wire": w, "locale": rng.pick(names)})
+            wire_val[w] = steps[-1]["locale"]
+            if rng.chance(1, 2):
+                steps.append({"op": any_set(), "view": child, "locale": rng.pick(names)})
+            steps.append({"op": "tick"})
+            steps.append({"op": "get", "view": child})
+            steps.append({"op": "get", "view": same_ctx_view(wire_view[w])})
+        elif op == "new_root":
             steps.append({"op": "new_root", "accept_language": rng.pick(names) if rng.chance(4, 5) else None})
             new_view()
         elif op == "provide_root":
@@ -189,9 +290,14 @@ def gen_sequence(rng, names, maxlen, tracked_only=False):
 
 
 TICK = {"op": "tick"}
-HOT = {"new_root", "sub", "provider", "provide_root", "provide_again", "set", "set_untracked"}
+HOT = {"new_root", "sub", "provider", "provide_root", "provide_again", "set", "set_untracked", "sub_wired", "wire_set"}
 TICK_MODES = ["hot", "hot", "hot", "random", "random", "each", "none", "none"]
-VIEW_MAKERS = {"new_root", "sub", "scope", "provide_root", "provider", "use_ctx", "provide_again"}
+VIEW_MAKERS = {"new_root", "sub", "scope", "provide_root", "provider", "use_ctx", "provide_again", "sub_wired"}
+WIRED_OPS = {"sub_wired", "wire_set"}
+
+
+def has_wired(steps):
+    return any(st["op"] in WIRED_OPS for st in steps)
 
 
 def add_ticks(rng, steps, mode):
@@ -393,6 +499,50 @@ def tick_corpus(names):
     return seqs
 
 
+def wired_corpus(names):
+    """hand-written sequences around wired sub-contexts (effects build only; the explicit ticks stay in every tick mode)"""
+    T = {"op": "tick"}
+    G = lambda v: {"op": "get", "view": v}
+    W = lambda w, x: {"op": "wire_set", "wire": w, "locale": x}
+    seqs = []
+    # creation value = the wire's, not the parent's; delivery at the tick only; a written wire with the value the listener
+    # last saw delivers nothing (the set in between stays); wire and set in one turn: the delivery wins; parent never matters
+    s = [{"op": "new_root", "accept_language": "fr"}, {"op": "sub_wired", "parent": 0, "locale": "de"}, G(1), G(0), T, G(1),
+         W(0, "en-US"), G(1), T, G(1), G(0), {"op": "set", "view": 1, "locale": "fr-CA"}, T, G(1), W(0, "en-US"), T, G(1),
+         W(0, "de"), {"op": "set", "view": 1, "locale": "fr"}, G(1), T, G(1), {"op": "set", "view": 0, "locale": "en"}, T, G(1), G(0),
+         W(0, "fr"), W(0, "de"), T, G(1), {"op": "set_untracked", "view": 1, "locale": "fr"}, W(0, "fr"), T, G(1), W(0, "de"), T, G(1)]
+    seqs.append(s)
+    # scoped views, closures of every kind and memos of a wired sub-context follow a delivery; an ordinary sub-context below
+    # it and a wired one below that; siblings wired to different signals
+    s = [{"op": "new_root", "accept_language": "en-US"}, {"op": "sub_wired", "parent": 0, "locale": "fr"}, {"op": "scope", "view": 1},
+         {"op": "scope", "view": 2}, {"op": "scope", "view": 3}]
+    for k, kind in enumerate(KINDS):
+        s.append({"op": "make_closure", "view": 1 + k % 4, "kind": kind})
+    for k, kind in enumerate(MEMO_KINDS):
+        s.append({"op": "make_memo", "view": 1 + (k + 1) % 4, "kind": kind})
+    reads = [{"op": "call_closure", "closure": c} for c in range(len(KINDS))] + [{"op": "read_memo", "memo": m} for m in range(len(MEMO_KINDS))]
+    s += reads + [W(0, "de"), T] + reads + [{"op": "set_untracked", "view": 3, "locale": "en"}] + reads + [W(0, "fr-CA"), T] + reads
+    s += [{"op": "sub", "parent": 2, "initial": None}, {"op": "sub_wired", "parent": 5, "locale": "de"}, {"op": "sub_wired", "parent": 0, "locale": "en"},
+          G(5), G(6), G(7), W(1, "fr"), W(2, "fr-CA"), W(0, "en-US"), {"op": "set", "view": 5, "locale": "de"}, T, G(1), G(5), G(6), G(7), G(0)]
+    s += reads
+    seqs.append(s)
+    # the last set and the wire agree: set(y) / wire_set(y) in both orders, in one turn and in two, after an earlier set + tick
+    s = [{"op": "sub_wired", "parent": None, "locale": "de"}, {"op": "scope", "view": 0}, T]
+    for k, (a, y) in enumerate([("en", "fr"), ("fr-CA", "en-US"), ("de", "fr"), ("en", "de"), ("fr", "en")]):
+        s += [{"op": "set", "view": k % 2, "locale": a}, T]
+        st = {"op": "set_untracked" if k % 2 else "set", "view": (k + 1) % 2, "locale": y}
+        s += ([st, W(0, y)] if k % 3 == 0 else [W(0, y), st] if k % 3 == 1 else [st, T, W(0, y)]) + [T, G(0), G(1)]
+    seqs.append(s)
+    # several wires written in one turn; a wire written twice in one turn (only the last value arrives; back to the old
+    # value: nothing arrives); deliveries into a chain of wired sub-contexts do not propagate downwards
+    s = [{"op": "provide_root", "accept_language": "fr"}, {"op": "sub_wired", "parent": 0, "locale": "en"}, {"op": "sub_wired", "parent": 1, "locale": "de"},
+         {"op": "sub_wired", "parent": 2, "locale": "fr-CA"}, T, W(0, "fr"), W(1, "fr"), W(2, "fr"), G(1), G(2), G(3), T, G(1), G(2), G(3),
+         W(0, "de"), W(0, "fr"), {"op": "set", "view": 1, "locale": "en-US"}, T, G(1), W(1, "en"), W(1, "de"), T, G(2), W(1, "en"), T, G(2), G(3), G(0),
+         {"op": "use_ctx", "owner": 0}, {"op": "set", "view": 4, "locale": "de"}, T, G(1), G(2), G(3), G(0)]
+    seqs.append(s)
+    return seqs
+
+
 def to_model(steps, idx):
     out = []
     for s in steps:
@@ -415,8 +565,14 @@ def to_model(steps, idx):
             out.append({"op": "use_ctx", "owner": s["owner"]})
         elif op in ("make_closure", "make_memo"):
             out.append({"op": op, "view": s["view"]})
+        elif op == "sub_wired":
+            out.append({"op": "sub_wired", "parent": s["parent"], "locale": idx[s["locale"]]})
+        elif op == "wire_set":
+            out.append({"op": "wire_set", "wire": s["wire"], "locale": idx[s["locale"]]})
         else:
             out.append(dict(s))
+    # the harness runs the executor once more before its own final read-back: the model's final state is taken after a tick
+    out.append({"op": "tick"})
     return out
 
 
@@ -453,7 +609,9 @@ def impl_obs(step, o, levels, idx, mlevels=None):
         return {"ctx": o["ctx"], "view": o["view"]}, None
     if op in ("new_root", "sub", "scope"):
         return {"view": o["view"]}, None
-    if op in ("set", "set_untracked"):
+    if op == "sub_wired":
+        return {"view": o["view"], "wire": o["wire"]}, None
+    if op in ("set", "set_untracked", "wire_set"):
         return None, None
     if op in ("get", "get_untracked"):
         return {"locale": idx[o["locale"]]}, None
@@ -485,12 +643,69 @@ def nontrivial(steps):
 BUILDS = [("plain", None, None), ("effects", ["effects"], "effects")]
 
 
+class WiredOracle:
+    """The property, for wired sub-contexts, stated without the Lean model.  It follows the steps of a sequence and keeps, for
+    every wired sub-context: S = the locale of the most recent `set_locale` / `set_locale_untracked` through any view of it (at
+    first: the locale the wire held when the sub-context was created) and D = the value its wire held at the most recent tick
+    (at first: the same creation value) — a written signal reaches nobody before the executor runs.  Whatever observes the
+    sub-context (`get_locale`, `get_locale_untracked`, a `t!`-family closure, through the view it was created as or any scoped
+    view) must see S or D, and exactly that locale when S = D.
+    Everything else about wired sub-contexts (WHICH of the two, memo reads) and everything that inherits from them (ordinary
+    sub-contexts created below a wired one: `tainted`) is compared with the model only."""
+    TAINTED = "tainted"
+
+    def __init__(self, idx):
+        self.idx = idx
+        self.vkind = []      # view -> None (ordinary context) | wire id | TAINTED
+        self.cview = []      # closure -> view
+        self.mview = []      # memo -> view
+        self.S, self.D, self.W = [], [], []
+
+    def step(self, st):
+        """advance over one step; returns what the step observes: None (nothing / an ordinary context: the specification
+        judges), ("wired", S, D) (this oracle judges), ("model",) (only the model is consulted)"""
+        op = st["op"]
+        if op == "sub_wired":
+            l = self.idx[st["locale"]]
+            self.vkind.append(len(self.S))
+            self.S.append(l); self.D.append(l); self.W.append(l)
+        elif op == "sub":
+            pk = None if st["parent"] is None else self.vkind[st["parent"]]
+            self.vkind.append(self.TAINTED if pk is not None and st["initial"] is None else None)
+        elif op == "scope":
+            self.vkind.append(self.vkind[st["view"]])
+        elif op in VIEW_MAKERS:
+            self.vkind.append(None)       # roots and everything found through the owner tree: never below a wired sub-context
+        elif op == "wire_set":
+            self.W[st["wire"]] = self.idx[st["locale"]]
+        elif op == "tick":
+            self.D = list(self.W)
+        elif op in ("set", "set_untracked"):
+            k = self.vkind[st["view"]]
+            if isinstance(k, int):
+                self.S[k] = self.idx[st["locale"]]
+        elif op == "make_closure":
+            self.cview.append(st["view"])
+        elif op == "make_memo":
+            self.mview.append(st["view"])
+        elif op in ("get", "get_untracked", "call_closure", "read_memo"):
+            v = st["view"] if op in ("get", "get_untracked") else self.cview[st["closure"]] if op == "call_closure" else self.mview[st["memo"]]
+            k = self.vkind[v]
+            if k is None:
+                return None
+            if k == self.TAINTED or op == "read_memo":
+                return ("model",)
+            return ("wired", self.S[k], self.D[k])
+        return None
+
+
 def judge(s, r, m, names, idx):
     """one sequence on one build: (spec_bad, model_bad); spec_bad = (step, impl obs, spec obs, why)"""
     levels, mlevels = [], []
     spec_bad = model_bad = None
     if len(r["obs"]) != len(s):
         raise HarnessError("harness answered %d observations for %d steps" % (len(r["obs"]), len(s)))
+    oracle = WiredOracle(idx)
     for k, (st, o) in enumerate(zip(s, r["obs"])):
         io, err = impl_obs(st, o, levels, idx, mlevels)
         so, mo = m["spec"][k], m["model"][k]
@@ -498,6 +713,23 @@ def judge(s, r, m, names, idx):
             # `t_plural!` accessors show the plural category of 0 in the locale the spec / the model says is current
             so = {"plural0": CAT0[names[so["locale"]]]} if isinstance(so, dict) and "locale" in so else so
             mo = {"plural0": CAT0[names[mo["locale"]]]} if isinstance(mo, dict) and "locale" in mo else mo
+        w = oracle.step(st)
+        if w is not None and not err:
+            if w[0] == "wired":
+                allowed = sorted({w[1], w[2]})
+                if "plural0" in io:
+                    ok = io["plural0"] in {CAT0[names[l]] for l in allowed}
+                else:
+                    ok = io.get("locale") in allowed
+                if not ok:
+                    why = ("wired sub-context: the most recent set on it and the value its wire held at the most recent tick are both "
+                           if len(allowed) == 1 else "wired sub-context: neither the most recent set on it nor the value its wire held at the most recent tick: ")
+                    spec_bad = (k, io, {"one_of": [{"locale": l} for l in allowed]}, why + "/".join(names[l] for l in allowed))
+                    break
+            if io != mo:
+                model_bad = (k, io, mo)
+                break
+            continue
         if err or io != so:
             spec_bad = (k, io, so, err)
             break
@@ -522,7 +754,7 @@ def req_of(s):
 
 # ------------------------------------------------------------------ minimisation of a failing sequence
 
-REFS = {"view": "view", "parent": "view", "closure": "closure", "memo": "memo", "owner": "owner"}
+REFS = {"view": "view", "parent": "view", "closure": "closure", "memo": "memo", "owner": "owner", "wire": "wire"}
 
 
 def makes(st):
@@ -536,6 +768,8 @@ def makes(st):
         out.append("memo")
     if op in ("provide_root", "provider", "child_owner"):
         out.append("owner")
+    if op == "sub_wired":
+        out.append("wire")
     return out
 
 
@@ -594,11 +828,19 @@ def minimise(binr, names, idx, steps, opname, budget=160):
 
 
 def evaluate(ctx, bins, names, idx, seqs, record=True, modes=None):
-    """bins: [(build name, binary)]; every sequence runs on every build; the model / the specification run once"""
-    impls = {b: run_lines_resilient(binp, [req_of(s) for s in seqs]) for b, binp in bins}
+    """bins: [(build name, binary)]; every sequence runs on every build (sequences with wired operations: on the effects
+    build only); the model / the specification run once"""
+    impls = {}
+    for b, binp in bins:
+        sel = [i for i, s in enumerate(seqs) if b == "effects" or not has_wired(s)]
+        impls[b] = dict(zip(sel, run_lines_resilient(binp, [req_of(seqs[i]) for i in sel])))
+    all_bins = bins
     lreqs, keep = [], []
     for i, s in enumerate(seqs):
         bad = False
+        bins = [(b, p) for b, p in all_bins if i in impls[b]]
+        if not bins:
+            raise HarnessError("a sequence with wired operations needs the effects build of ctx_h")
         for b, _ in bins:
             r = impls[b][i]
             if is_panic(r):
@@ -614,6 +856,7 @@ def evaluate(ctx, bins, names, idx, seqs, record=True, modes=None):
     mism = 0
     for i, m in zip(keep, model):
         s = seqs[i]
+        bins = [(b, p) for b, p in all_bins if i in impls[b]]
         if m["model"] != m["spec"]:
             raise HarnessError("model violates its own proved specification: " + json.dumps(s))
         verdicts = {}
@@ -631,6 +874,10 @@ def evaluate(ctx, bins, names, idx, seqs, record=True, modes=None):
                 ctx.count(f"tasks_polled_at_ticks_on_build={b}", sum(polled))
         if record:
             ctx.seen(s, nontrivial=nontrivial(s))
+            if has_wired(s):
+                ctx.count("sequences_with_wired_ops")
+                for key, n in wired_stats(s, idx).items():
+                    ctx.count(key, n)
             ctx.count("len<=%d" % next(b for b in (10, 50, 100, 200, 400, 10 ** 6) if len(s) <= b))
             if modes is not None:
                 ctx.count("tick_mode=" + modes[i])
@@ -651,10 +898,16 @@ def evaluate(ctx, bins, names, idx, seqs, record=True, modes=None):
             # signature: the operation whose observation is wrong; "@effects" when only the build with running effects fails
             b = "plain" if "plain" in failing else failing[0]
             k, io, so, err = verdicts[b][0]
-            sig = "ops:" + s[k]["op"] + ("" if "plain" in failing else "@" + b)
-            names_of = lambda ob: ob if not isinstance(ob, dict) or "locale" not in ob else {"locale": names[ob["locale"]]}
+            by_wired_oracle = isinstance(so, dict) and "one_of" in so
+            sig = ("wired:" if by_wired_oracle else "ops:") + s[k]["op"] + ("" if "plain" in failing else "@" + b)
+
+            def names_of(ob):
+                if isinstance(ob, dict) and "one_of" in ob:
+                    return {"one_of": [names_of(x) for x in ob["one_of"]]}
+                return ob if not isinstance(ob, dict) or "locale" not in ob else {"locale": names[ob["locale"]]}
             payload = {
                 "steps": s[:k + 1], "failing_step": k, "got": names_of(io), "expected_by_spec": names_of(so), "why": err,
+                "oracle": "WiredOracle (model-independent)" if by_wired_oracle else "history specification (Spec/Context.lean)",
                 "build": b, "builds_failing": failing, "harness": f"ctx_h ops ({b} build)",
                 "replay_cmd": "./check C16 --replay <this file>"}
             fresh = (not any(f["kind"] == "finding" and f["property"] == ctx.pid and f["sig"] == sig for f in load_findings())
@@ -673,6 +926,31 @@ def evaluate(ctx, bins, names, idx, seqs, record=True, modes=None):
                 b = [b for b, _ in bins if verdicts[b][1]][0]
                 ctx.broken.append({"kind": "correspondence", "name": "R/ops:step", "detail": {"steps": s, "build": b, "at": verdicts[b][1]}})
     return mism
+
+
+def wired_stats(steps, idx):
+    """evidence counters: how often a tick had something to deliver, a wire was written with the value it had, the last
+    set and the wire agreed at a read (the shapes the wired theorems speak about), by replaying the oracle's bookkeeping"""
+    o = WiredOracle(idx)
+    out = {}
+
+    def bump(k):
+        out[k] = out.get(k, 0) + 1
+    for st in steps:
+        if st["op"] == "tick":
+            for w, d in zip(o.W, o.D):
+                bump("wired:tick_with_changed_wire" if w != d else "wired:tick_with_unchanged_wire")
+        if st["op"] == "wire_set":
+            bump("wired:wire_set_same_value" if o.W[st["wire"]] == idx[st["locale"]] else "wired:wire_set_new_value")
+        if st["op"] in ("set", "set_untracked") and isinstance(o.vkind[st["view"]], int):
+            k = o.vkind[st["view"]]
+            bump("wired:set_while_wire_pending" if o.W[k] != o.D[k] else "wired:set_on_wired_context")
+        r = o.step(st)
+        if r is not None and r[0] == "wired":
+            bump("wired:read_with_set_and_wire_agreeing" if r[1] == r[2] else "wired:read_with_set_and_wire_differing")
+        elif r is not None:
+            bump("wired:read_judged_by_model_only")
+    return out
 
 
 def selftest(bins):
@@ -695,6 +973,15 @@ def selftest(bins):
             if r["feature_effects"] is not False or any(e) or any(re_):
                 raise HarnessError(f"plain build of ctx_h runs effects: effect {e!r} render_effect {re_!r} (target dirs mixed?)")
         ran[b] = {"effect": e[-1], "render_effect": re_[-1], "isomorphic": iso[-1]}
+        # wired operations: accepted by the effects build, rejected as a whole by the plain one
+        probe = [{"op": "sub_wired", "parent": None, "locale": "fr"}, {"op": "wire_set", "wire": 0, "locale": "de"}, {"op": "tick"},
+                 {"op": "get", "view": 0}]
+        (r,), crash = run_lines(binp, [req_of(probe)])
+        if b == "effects":
+            if crash or "obs" not in r or r["obs"][-1] != {"locale": "de"}:
+                raise HarnessError(f"effects build of ctx_h: a written wire is not delivered at the tick: {r!r} {crash!r}")
+        elif crash or "bad_op" not in r:
+            raise HarnessError(f"plain build of ctx_h accepts wired operations: {r!r} {crash!r}")
     return ran
 
 
@@ -711,6 +998,7 @@ def build_all(ctx):
 def run(ctx):
     lean_check(ctx, "I18nVerif.Theorems.C16", "C16_")
     lean_check(ctx, "I18nVerif.Theorems.C16Ticks", "C16_")
+    lean_check(ctx, "I18nVerif.Theorems.C16Wired", "C16_")
     bins = build_all(ctx)
     if bins is None:
         finish_broken(ctx, "harness does not build; nothing could be run")
@@ -722,15 +1010,16 @@ def run(ctx):
     rng = ctx.rng
     seqs, modes = [], []
     # hand-written sequences: as they are (no tick until the closing one), a tick after every step, hot, random
-    for s in corpus(names) + tick_corpus(names):
+    for s in corpus(names) + tick_corpus(names) + wired_corpus(names):
         for mode in ("none", "each", "hot", "random"):
             seqs.append(close_sequence(add_ticks(rng, s, mode)))
             modes.append(mode)
     ncorpus = len(seqs)
     nseq = ctx.budget(1200, 16000)
     for i in range(nseq):
-        # a third short (dense interaction on few contexts), the rest up to 200 operations
-        base = gen_sequence(rng, names, 40 if i % 3 == 0 else 200, tracked_only=(i % 4 == 1))
+        # a third short (dense interaction on few contexts), the rest up to 200 operations; two in five also wire sub-contexts
+        # to caller-owned signals (those run on the effects build only)
+        base = gen_sequence(rng, names, 40 if i % 3 == 0 else 200, tracked_only=(i % 4 == 1), wired=(i % 5 in (2, 4)))
         mode = TICK_MODES[i % len(TICK_MODES)]
         seqs.append(close_sequence(add_ticks(rng, base, mode)))
         modes.append(mode)
@@ -748,12 +1037,17 @@ def run(ctx):
         "(RwSignal get/set/write_untracked atomicity, re-execution of t! closures placed in a view when the signal notifies — the "
         "harness re-invokes closures itself; effect scheduling). The correspondence (real contexts on two builds — effects inert / "
         "effects running on a deterministic executor —, every observation of every step compared) carries most of the weight. "
-        "Not executed: real wasm csr/hydrate builds (effects run natively here), a caller-wired initial-locale signal that CHANGES "
-        "(the property's stated exception: the harness has no operation for it, every initial locale is a constant Signal::stored), "
+        "The property's stated exception — a caller-wired initial-locale signal that changes — is exercised on the effects build "
+        "(sub_wired / wire_set: the written value arrives at the next tick iff it differs from what the listener memo last saw; "
+        "Theorems/C16Wired.lean) and judged by a model-independent oracle (WiredOracle). "
+        "Not executed: real wasm csr/hydrate builds (effects run natively here), wired signals under the plain ssr build (the forwarding "
+        "RenderEffect is inert there: the plain build rejects the operations), wired <I18nSubContextProvider initial_locale=signal> "
+        "(same init_i18n_subcontext_with_options underneath), wired sub-contexts WITH a cookie name, "
         "cookies (disabled in these sequences; their interplay with creation is C15).")
     ctx.assumptions += [
         "leptos reactive runtime trusted (RwSignal atomic get/set; closures are re-invoked by the harness, not by a renderer)",
-        "cookies disabled for the contexts of the sequences; sub-contexts created with constant (non-reactive) initial locale: the property's exception 'unless the caller wired an initial-locale signal' is never exercised, in either build",
+        "cookies disabled for the contexts of the sequences; `sub` / `provider` create sub-contexts with a constant (non-reactive) initial locale; the property's exception 'unless the caller wired an initial-locale signal' is exercised by `sub_wired` / `wire_set` on the effects build only (caller-owned RwSignal handed to init_i18n_subcontext_with_options, no cookie name)",
+        "WiredOracle reads the property as: a wired sub-context shows the locale of the most recent set* on it or the value its wire held at the most recent tick (a written signal reaches nobody before the executor runs), and exactly that locale when the two agree; which of the two, and memo reads on wired sub-contexts, are compared with the model only",
         "initial locale of new_root / provide_root taken from an exact-name Accept-Language header (resolution itself is property C15)",
         "'reactive accessor' = leptos' lazy Memo: cached value, invalidated by tracked sets only (RwSignal::set notifies even for an equal value), recomputed at the next read — modelled explicitly and compared on every read_memo",
         "which context use_i18n() returned is identified through the public API (distinguishable untracked write, read through one representative view per context, restore)",
